@@ -4,7 +4,7 @@ import PoxModel.Proofs.MatchSubsume
 /-! # C03 — flow match and lookup semantics agree with OpenFlow 1.0
 
 Property theorems only.  Model: `Model/Match.lean` (`ofp_match`), `Model/FlowTable.lean` (`FlowTable`); standard:
-`Spec/OF10Match.lean`; helper lemmas: `Proofs/MatchBits.lean`, `Proofs/Match.lean`, `Proofs/FlowTable.lean`, `Proofs/Subsume.lean`.
+`Spec/OF10Match.lean`; helper lemmas: `Proofs/MatchBits.lean`, `Proofs/Match.lean`, `Proofs/FlowTable.lean`, `Proofs/Subsume.lean`, `Proofs/MatchSubsume.lean`.
 
 The model follows the code *with the proposed repairs D22 (SNAP OUI compared as bytes) and D29 (both addresses reduced to
 the network part before comparison) applied*; with them `matches_iff` needs no hypothesis about host bits under the prefix
@@ -193,11 +193,15 @@ example : ∀ f ∈ demoFlows, FlowOk f := by
 example : ((install demoFlows).map (·.priority)) = [1, 0xffff, 100, 100] := by decide
 example : ((entryForPacket (install demoFlows) tcpFrame 1).map (·.data.priority)) = some 1 := by decide
 example : entryForPacket (install demoFlows) (arpFrame 1) 2 = none := by decide
-example : (build ([] : List (Entry Unit))).length = 0 := rfl
+-- `exact_outranks`: the installed table has an exact entry (position 0) and wildcarded ones behind it, all priorities 16-bit
+example : (install demoFlows).map (·.mtch.isExact) = [true, false, false, false] ∧ ∀ f ∈ demoFlows, f.priority ≤ 0xffff := by decide
 
 -- subsumption: both outcomes
 example : (ofWire srcPrefix8).matchesWith true (ofWire tcpExact) = true := by decide
 example : (ofWire tcpExact).matchesWith true (ofWire srcPrefix8) = false := by decide
+example : PrereqExact tcpExact ∧ PrereqExact srcPrefix8 ∧ tcpExact.nwTos % 4 = 0 ∧ srcPrefix8.nwTos % 4 = 0 ∧
+    tcpExact.wildcards < 2 ^ 22 ∧ srcPrefix8.wildcards < 2 ^ 22 :=
+  ⟨⟨by decide, by decide⟩, ⟨by decide, by decide⟩, by decide, by decide, by decide, by decide⟩
 
 /-! ### what the hypotheses exclude (open findings; the harness replays the same inputs on the real code) -/
 
